@@ -124,8 +124,10 @@ structure CState where
   reg : Reg
   pcs : List (Pipe × Pc)      -- one entry per creator actor: the pipe it wants to create, its program counter
 
-/-- actor `a` performs its next critical section. `none` = the actor has nothing left to do. -/
-def cstep (s : CState) (a : Nat) : Option CState :=
+/-- actor `a` performs its next critical section. `none` = the actor has nothing left to do.
+`recheck` says whether the second section looks the name up again before storing (regenerated from the
+source: `Generated.C19.createPipeRechecks`); without it the second section stores unconditionally. -/
+def cstep (recheck : Bool) (s : CState) (a : Nat) : Option CState :=
   match s.pcs[a]? with
   | none => none
   | some (p, .start) =>
@@ -135,15 +137,17 @@ def cstep (s : CState) (a : Nat) : Option CState :=
     | none => some { s with pcs := s.pcs.set a (p, .checked) }
   | some (p, .checked) =>
     -- lock; _, ok = ppipes[name]; if !ok { ppipes[name] = stm }; unlock
-    match s.reg.find p.name with
-    | some _ => some { s with pcs := s.pcs.set a (p, .done false) }
-    | none => some { reg := p :: s.reg, pcs := s.pcs.set a (p, .done true) }
+    if recheck then
+      match s.reg.find p.name with
+      | some _ => some { s with pcs := s.pcs.set a (p, .done false) }
+      | none => some { reg := p :: s.reg, pcs := s.pcs.set a (p, .done true) }
+    else some { reg := p :: s.reg.erase p.name, pcs := s.pcs.set a (p, .done true) }
   | some (_, .done _) => none
 
-def crun (s : CState) : List Nat → CState
+def crun (recheck : Bool) (s : CState) : List Nat → CState
   | [] => s
-  | a :: as => match cstep s a with
-    | some s' => crun s' as
-    | none => crun s as
+  | a :: as => match cstep recheck s a with
+    | some s' => crun recheck s' as
+    | none => crun recheck s as
 
 end Logrange.Registry
